@@ -45,6 +45,9 @@ pub enum Case {
     /// two float curves with their own ids and node counts, switched to order 1 one after the other on one thread
     /// (A, B, then A to 2, B to 2): the tags of each are '<its id><i>' whatever the other one is called
     IdHistory { id_a: String, n_a: usize, id_b: String, n_b: usize, py: bool },
+    /// a curve whose node values are first-order numbers on the SAME two (three) variables listed in different orders
+    /// from node to node, taken through `switches`; judged against the twin whose nodes all list them in one order
+    PermutedVars { rule: u8, py: bool, second_order_nodes: bool, switches: Vec<u8> },
     /// a float curve with MANY nodes (tag names with two digits, long node maps) taken through 1, 2, 1, 0, 2
     ManyNodes {
         rule: u8,
@@ -477,6 +480,107 @@ pub fn check(case: &Case, idx: u64, acc: &mut Acc) {
                 acc.sample(|| json!({"init": init, "states": states, "transitions": tr, "max_depth": checker.max_depth(), "example_history": [1, 2, 1, 0, 2]}));
             }
         }
+        Case::PermutedVars { rule, py, second_order_nodes, switches } => {
+            let cal = Cal::new(vec![], vec![5, 6]);
+            let xs = node_times(&[1, 2, 0, 1]);
+            let ys = [1.0, 0.97, 0.93, 0.9, 0.86];
+            // gradients with respect to (a, b, c) of each node; the listing order of the names rotates / swaps per node
+            let g: [[f64; 3]; 5] = [[1.0, 2.0, 0.5], [5.0, 3.0, 0.25], [7.0, 11.0, 13.0], [0.0, 4.0, 1.5], [2.5, 0.0, 6.0]];
+            let orders: [[usize; 3]; 5] = [[0, 1, 2], [1, 0, 2], [2, 0, 1], [0, 1, 2], [2, 1, 0]];
+            let nm = ["a", "b", "c"];
+            let mk = |permuted: bool| -> Obj {
+                let num = |k: usize| -> Number {
+                    let o = if permuted { orders[k] } else { [0, 1, 2] };
+                    let names: Vec<String> = o.iter().map(|i| nm[*i].to_string()).collect();
+                    let grads: Vec<f64> = o.iter().map(|i| g[k][*i]).collect();
+                    if *second_order_nodes {
+                        Number::Dual2(Dual2::try_new(ys[k], names, grads, vec![]).unwrap())
+                    } else {
+                        Number::Dual(Dual::try_new(ys[k], names, grads).unwrap())
+                    }
+                };
+                if *py {
+                    let mut m: IndexMap<NaiveDateTime, Number> = IndexMap::new();
+                    for k in 0..5 {
+                        m.insert(ts_to_ndt(xs[k]), num(k));
+                    }
+                    Obj::Py(VerifCurve::new(m, interp_of(*rule as usize), adorder(if *second_order_nodes { 2 } else { 1 }), ID, Convention::Act360, Modifier::ModF, CalType::Cal(cal.clone()), None).unwrap())
+                } else {
+                    macro_rules! go {
+                        ($variant:ident, $i:expr) => {{
+                            let nodes = if *second_order_nodes {
+                                Nodes::Dual2((0..5).map(|k| (ts_to_ndt(xs[k]), match num(k) { Number::Dual2(d) => d, _ => unreachable!() })).collect())
+                            } else {
+                                Nodes::Dual((0..5).map(|k| (ts_to_ndt(xs[k]), match num(k) { Number::Dual(d) => d, _ => unreachable!() })).collect())
+                            };
+                            Obj::$variant(CurveDF::try_new(nodes, $i, ID, Convention::Act360, Modifier::ModF, None, cal.clone()).unwrap())
+                        }};
+                    }
+                    match rule {
+                        0 => go!(Lin, LinearInterpolator::new()),
+                        1 => go!(Log, LogLinearInterpolator::new()),
+                        2 => go!(Lzr, LinearZeroRateInterpolator::new()),
+                        3 => go!(Ff, FlatForwardInterpolator::new()),
+                        _ => go!(Fb, FlatBackwardInterpolator::new()),
+                    }
+                }
+            };
+            let (mut subj, mut twin) = (mk(true), mk(false));
+            let names: Vec<String> = nm.iter().map(|s| s.to_string()).collect();
+            let mut qs: Vec<i64> = vec![];
+            for w in xs.windows(2) {
+                qs.push(w[0]);
+                qs.push(w[0] + (w[1] - w[0]) / 3);
+            }
+            qs.push(xs[4]);
+            acc.nontrivial();
+            let cj = || serde_json::to_value(case).unwrap();
+            let by_name = |x: &Number| -> (f64, Vec<f64>, Vec<f64>) {
+                match x {
+                    Number::F64(f) => (*f, vec![], vec![]),
+                    Number::Dual(d) => (d.real(), d.gradient1(names.clone()).to_vec(), vec![]),
+                    Number::Dual2(d) => (d.real(), d.gradient1(names.clone()).to_vec(), d.gradient2(names.clone()).iter().cloned().collect()),
+                }
+            };
+            for step in 0..=switches.len() {
+                if step > 0 {
+                    let o = adorder(switches[step - 1]);
+                    let (a, b) = (subj.set_ad_order(o), twin.set_ad_order(o));
+                    if !a || !b {
+                        acc.violate("permuted-vars/set_ad_order-refused", idx, cj(), json!("Ok"), json!([a, b]));
+                        return;
+                    }
+                }
+                // once a curve has been at order 0 its nodes carry automatic tags: the comparison by (a, b, c) then
+                // sees zeros on both sides, and the tags are compared through the full variable lists below
+                for q in qs.iter() {
+                    acc.evals_add(2);
+                    let (x, y) = (subj.get(&ts_to_ndt(*q)), twin.get(&ts_to_ndt(*q)));
+                    let (kx, ky) = (by_name(&x), by_name(&y));
+                    let same = kx.0.to_bits() == ky.0.to_bits()
+                        && kx.1.len() == ky.1.len()
+                        && kx.1.iter().zip(ky.1.iter()).all(|(p, q)| close_scaled(*p, *q, 1e-12, q.abs().max(1.0)))
+                        && kx.2.len() == ky.2.len()
+                        && kx.2.iter().zip(ky.2.iter()).all(|(p, q)| close_scaled(*p, *q, 1e-12, q.abs().max(1.0)));
+                    acc.outcome(&(step, hash_f64s(&kx.1), *rule));
+                    if !same {
+                        acc.violate(&format!("permuted-vars/look-up-differs-from-twin/after-{}-switches", step.min(2)), idx, cj(), json!({"date_ts": q, "twin": format!("{:?}", ky)}), json!(format!("{:?}", kx)));
+                        return;
+                    }
+                }
+                for ((_, x), (_, y)) in subj.nodes().iter().zip(twin.nodes().iter()) {
+                    acc.eval();
+                    let (kx, ky) = (by_name(x), by_name(y));
+                    if kx.0.to_bits() != ky.0.to_bits() || kx.1 != ky.1 || kx.2 != ky.2 {
+                        acc.violate("permuted-vars/node-differs-from-twin", idx, cj(), json!(format!("{:?}", ky)), json!(format!("{:?}", kx)));
+                        return;
+                    }
+                }
+            }
+            if idx % 53 == 0 {
+                acc.sample(cj);
+            }
+        }
         Case::IdHistory { id_a, n_a, id_b, n_b, py } => {
             let cal = Cal::new(vec![], vec![5, 6]);
             let mk = |id: &str, n: usize| -> Obj {
@@ -633,6 +737,33 @@ pub fn check(case: &Case, idx: u64, acc: &mut Acc) {
 
 pub fn cases(tier: Tier) -> Vec<Case> {
     let mut out = vec![];
+    // nodes on shared variables listed in different orders: every switch sequence of length <= 3 (thorough: 4)
+    {
+        let maxlen = tier.pick(3usize, 4usize);
+        let mut seqs: Vec<Vec<u8>> = vec![vec![]];
+        let mut frontier: Vec<Vec<u8>> = vec![vec![]];
+        for _ in 0..maxlen {
+            let mut next = vec![];
+            for f in frontier.iter() {
+                for o in 0..3u8 {
+                    let mut t = f.clone();
+                    t.push(o);
+                    next.push(t);
+                }
+            }
+            frontier = next;
+        }
+        seqs = frontier; // (sequences of full length: every prefix is judged on the way)
+        for rule in 0..5u8 {
+            for py in [false, true] {
+                for second_order_nodes in [false, true] {
+                    for sw in seqs.iter() {
+                        out.push(Case::PermutedVars { rule, py, second_order_nodes, switches: sw.clone() });
+                    }
+                }
+            }
+        }
+    }
     let gap_sets: Vec<Vec<u8>> = tier.pick(
         vec![vec![1], vec![2, 1], vec![0, 2, 1], vec![1, 3, 0, 2]],
         vec![vec![1], vec![0], vec![2, 1], vec![0, 3], vec![0, 2, 1], vec![3, 0, 1], vec![1, 3, 0, 2], vec![2, 2, 1, 0]],
